@@ -3,11 +3,13 @@
 # usage: tools/seed_sweep.sh <from> <to> [ID...]   (evidence/replays go to a scratch VERIF_DIR)
 FROM=${1:-2}; TO=${2:-12}; shift 2
 IDS=${@:-C05 C08 C09 C10 C11 C12 C13 C14 C16 C17 C18 C19}
-D=$(mktemp -d /tmp/sweep.XXXX); cp /verif/KNOWN_FINDINGS.txt $D/
+V=$(cd "$(dirname "$0")/.."; pwd)
+D=$(mktemp -d /tmp/sweep.XXXX); cp $V/KNOWN_FINDINGS.txt $D/
+export VERIF_TARGET=${VERIF_TARGET:-$D/target}
 bad=0
 for s in $(seq $FROM $TO); do
   for id in $IDS; do
-    out=$(VERIF_SEED=$s VERIF_DIR=$D /verif/check $id ${TIER:-quick} 2>&1); rc=$?
+    out=$(VERIF_SEED=$s VERIF_DIR=$D $V/check $id ${TIER:-quick} 2>&1); rc=$?
     if [ $rc -ne 0 ]; then echo "SEED $s $id exit=$rc"; echo "$out" | tail -5; bad=$((bad+1)); fi
   done
   echo "seed $s done, problems so far: $bad"
